@@ -5,8 +5,10 @@ import (
 	"encoding/json"
 	"fmt"
 	"math"
+	"strings"
 	"time"
 
+	"github.com/practable/relay/internal/access/models"
 	"github.com/practable/relay/internal/crossbar"
 	"github.com/practable/relay/pkg/status"
 	"github.com/practable/relay/verifharness/lib"
@@ -234,6 +236,10 @@ func (e Ev) coq(ids map[uint64]Ident) string {
 	case "join":
 		w := *e.Who
 		ids[e.ID] = w
+		if !e.Internal && !w.ScopesNil {
+			// an accepted websocket: the model derives can read / can write from the scopes
+			return lib.App("Register", lib.App("member_at_join", lib.N(e.ID), cBytes(w.Topic), cBytesList(w.Scopes), "[]", cBytes(w.ExpiresAt), cBytes(w.UserAgent), cBytes(w.Addr)))
+		}
 		fr := "(mk_frames 0%N 0%Z [48]%N (Finite [48]%N))"
 		return lib.App("Register", lib.App("mk_member", lib.N(e.ID), cBytes(w.Topic), cScopes(w.ScopesNil, w.Scopes), lib.Bool(w.CanRead), lib.Bool(w.CanWrite),
 			"[]", cBytes(w.ExpiresAt), cBytes(w.UserAgent), cBytes(w.Addr), lib.Bool(e.Internal), fr, fr))
@@ -305,4 +311,77 @@ func runTrafficCase(c *Case) string {
 		nv[i] = lib.Bool(b)
 	}
 	return lib.App("CTraffic", lib.N(uint64(c.D)), lib.List(nv))
+}
+
+// restCase turns a body GET /status answered into a case for the model's encoder: the listing is
+// decoded with the API's own type, the float texts are taken as they stand in the body.
+func restCase(body []byte, note string) (Case, bool) {
+	// encoding/json writes the escape \ufffd only for an invalid byte of the original string (a genuine
+	// U+FFFD is written raw): mark those escapes so that the strings given to the model have an invalid
+	// byte again in their place
+	const marker = "\uf8fe"
+	marked := make([]byte, 0, len(body))
+	for i := 0; i < len(body); i++ {
+		if body[i] == '\\' && i+1 < len(body) {
+			if i+5 < len(body) && string(body[i:i+6]) == `\ufffd` {
+				marked = append(marked, `\uf8fe`...)
+				i += 5
+				continue
+			}
+			marked = append(marked, body[i], body[i+1])
+			i++
+			continue
+		}
+		marked = append(marked, body[i])
+	}
+	unmark := func(s string) []byte { return []byte(strings.ReplaceAll(s, marker, "\xff")) }
+	if bytes.Contains(body, []byte(marker)) {
+		return Case{}, false
+	}
+	var typed []*models.Report
+	if err := json.Unmarshal(marked, &typed); err != nil {
+		return Case{}, false
+	}
+	type det struct {
+		Fps  json.Number `json:"fps"`
+		Size json.Number `json:"size"`
+	}
+	var raw []struct {
+		Stats struct {
+			Rx det `json:"rx"`
+			Tx det `json:"tx"`
+		} `json:"stats"`
+	}
+	if err := json.Unmarshal(body, &raw); err != nil || len(raw) != len(typed) {
+		return Case{}, false
+	}
+	lex := func(n json.Number) []byte {
+		if n == "" {
+			return []byte("0")
+		}
+		return []byte(n)
+	}
+	c := Case{Kind: "rest", Doc: body, Note: note}
+	for i, r := range typed {
+		if r == nil || r.Stats == nil || r.Stats.Rx == nil || r.Stats.Tx == nil {
+			return Case{}, false
+		}
+		rep := Rep{CanRead: r.CanRead, CanWrite: r.CanWrite, Connected: unmark(r.Connected), ExpiresAt: unmark(r.ExpiresAt),
+			RemoteAddr: unmark(r.RemoteAddr), ScopesNil: r.Scopes == nil, Topic: unmark(r.Topic), UserAgent: unmark(r.UserAgent)}
+		for _, s := range r.Scopes {
+			rep.Scopes = append(rep.Scopes, unmark(s))
+		}
+		rep.Rx = RepStats{Last: []byte(r.Stats.Rx.Last), SizeLex: lex(raw[i].Stats.Rx.Size), FpsLex: lex(raw[i].Stats.Rx.Fps)}
+		rep.Tx = RepStats{Last: []byte(r.Stats.Tx.Last), SizeLex: lex(raw[i].Stats.Tx.Size), FpsLex: lex(raw[i].Stats.Tx.Fps)}
+		c.Reports = append(c.Reports, rep)
+	}
+	return c, true
+}
+
+func runRestCase(c *Case) string {
+	rs := make([]string, len(c.Reports))
+	for i, r := range c.Reports {
+		rs[i] = r.coq()
+	}
+	return lib.App("CRest", lib.List(rs), cBytes(c.Doc))
 }
